@@ -18,6 +18,20 @@ CHECKS = [
         "Trusted: Coq kernel + vm_compute, the hand-written model (Model/Quadtree.v, Model/Reducer.v), the harness; "
         "filters are modelled as pure predicates on positions.",
         "machine-checked proof (Coq) + model/implementation correspondence by vm_compute", "DESIGN.md section 5, C13"),
+    chk("C03",
+        "Coq theorems over a Gallina LTS of the producer / bounded multiprocessing.Queue / worker protocol shared by the "
+        "four parallel stages, for every item count, worker count >= 1, queue and pipe capacity and every schedule "
+        "(arbitrary action lists): exactly-once hand-out (visit_safety), terminal state = every item received and "
+        "completed once and all workers exited (visit_terminal), no deadlock (visit_no_deadlock), bounded progress "
+        "(visit_measure), item set = serial leaf set (C13). Tie to /repo: the four real entry points run unmodified under "
+        "a deterministic scheduler that replaces multiprocessing.Queue/Event/Process; every recorded trace (enabled set and "
+        "chosen action per step) is replayed on the LTS inside Coq. Partial: termination is proved up to fairness "
+        "(no-deadlock + measure); the fakes' faithfulness to CPython's Queue is trusted.",
+        "Trusted: Coq kernel + vm_compute, Model/VisitPar.v, harness/detsched.py (fake Queue/Event/Process mirroring CPython "
+        "3.12 queues.py), callbacks atomic between sync points; Empty only on an empty pipe (reader-lock contention excluded "
+        "by the property's quantifier).",
+        "machine-checked proof (Coq invariant + measure over an LTS) + trace correspondence under a deterministic scheduler",
+        "DESIGN.md section 5, C03"),
 ]
 
 _PENDING = "check not built yet in this round (design in DESIGN.md section 5); will be claimed when its model, theorems and correspondence exist"
